@@ -376,6 +376,21 @@ pub fn hash_text(rng: &mut Rng) -> Vec<u8> {
 /// Byte-level mutation of a text.
 pub fn mutate_text(rng: &mut Rng, t: &mut Vec<u8>) {
     const SPECIAL: &[u8] = b":,:,=-_ \0\n\xff\x80A/+9z0";
+    // leading / trailing white space and line terminators (what a lenient text front end would strip)
+    if rng.chance(1, 6) {
+        const WS: &[&[u8]] = &[b"\n", b"\r\n", b" ", b"\t", b"  \n", b"\x0b", b"\x0c"];
+        let w = *rng.pick(WS);
+        if rng.chance(3, 4) {
+            t.extend_from_slice(w);
+        } else {
+            let mut n = w.to_vec();
+            n.extend_from_slice(t);
+            *t = n;
+        }
+        if rng.chance(1, 2) {
+            return;
+        }
+    }
     for _ in 0..rng.range(1, 3) {
         let c = if rng.chance(2, 3) { *rng.pick(SPECIAL) } else { rng.byte() };
         match rng.below(5) {
